@@ -113,11 +113,25 @@ theorem C08_lazy_create (s s' : State) (i : Nat) (oc : Outcome)
       simp only at h
       split at h
       · cases pc
-        all_goals simp only [stepResize, finishResize, returnResize] at h
+        all_goals simp only [stepResize, finishResize] at h
         all_goals repeat' split at h
         all_goals first | (simp at h; done) | skip
         all_goals (simp only [Option.some.injEq] at h; subst h)
-        all_goals (exfalso; apply hnot; simpa [State.setOp, State.emit] using hin)
+        all_goals first
+          | (exfalso; apply hnot; simpa [State.setOp, State.emit] using hin)
+          | (-- close(): the drained objects are detached and destroyed, nothing is created
+             exfalso; apply hnot
+             simp only [State.setOp, State.emit, List.mem_append, List.mem_cons, List.not_mem_nil,
+               or_false, reduceCtorEq] at hin
+             rcases hin with h1 | h1
+             · exact h1
+             · exfalso
+               have : ∀ l, Ev.createCall j ∉ drainEvs i l := by
+                 intro l
+                 induction l with
+                 | nil => simp [drainEvs]
+                 | cons o rest ih => simp [drainEvs, ih]
+               exact this _ h1)
       · simp at h
     | retain keep =>
       simp only at h
